@@ -34,6 +34,7 @@ func runC07(c *Ctx, r *Report) {
 	c07R12(c, r)
 	c07R34(c, r)
 	c07R5(c, r, "C07.R5")
+	c07R9(c, r, "C07.R9")
 	// R6
 	c06R3only(c, r, "C07.R6", "modules/l4tls.")
 }
@@ -890,4 +891,55 @@ func inlineGuardedHelpers(fset *token.FileSet, fn *ast.FuncDecl, decls map[strin
 		return again
 	}
 	return root
+}
+
+// c07R9: crypto/tls derives the supported versions from the legacy version field whenever the hello carries no
+// supported_versions extension - also for a hello that ends early or has no extensions at all. In the repo's
+// parser that fallback must therefore be applied on every way out of the function.
+func c07R9(c *Ctx, r *Report, rule string) {
+	r.rule(rule, "the supported-versions fallback (supportedVersionsFromMax on the legacy version when no supported_versions extension was seen) is applied on every path out of parseRawClientHello: it is deferred before the first return, or no return is reachable without passing it", 1)
+	fnName := "modules/l4tls.parseRawClientHello"
+	fn := c.Fn(fnName)
+	if fn == nil {
+		r.bad(rule, fnName, "exists", "-", "function not found")
+		return
+	}
+	callsFallback := func(f *ssa.Function) bool {
+		for g := range c.reachSync(f) {
+			for _, ci := range callsIn(g) {
+				if strings.HasSuffix(calleeID(ci), "supportedVersionsFromMax") {
+					return true
+				}
+			}
+		}
+		return false
+	}
+	through := func(in ssa.Instruction) bool {
+		switch x := in.(type) {
+		case *ssa.Defer:
+			if cl := closureOf(x.Call.Value); cl != nil && callsFallback(cl) {
+				return true
+			}
+			if cal := x.Call.StaticCallee(); cal != nil && callsFallback(cal) {
+				return true
+			}
+		case *ssa.Call:
+			if strings.HasSuffix(calleeID(x), "supportedVersionsFromMax") {
+				return true
+			}
+			if cal := x.Call.StaticCallee(); cal != nil && cal != fn && cal.Pkg == fn.Pkg && callsFallback(cal) {
+				return true
+			}
+		}
+		return false
+	}
+	esc := pathFromEntryAvoiding(fn, func(in ssa.Instruction) bool {
+		ret, ok := in.(*ssa.Return)
+		return ok && (fn.Recover == nil || ret.Block() != fn.Recover)
+	}, through)
+	where := ""
+	if esc != nil {
+		where = c.ipos(esc)
+	}
+	r.check(esc == nil, rule, fnName, "fallback on every path", c.pos(fn.Pos()), "no return avoids the fallback", "the return at "+where+" is reachable without the supported-versions fallback: for a hello without extensions (or cut short) the matcher reports no versions where Go's TLS server reports those implied by the legacy version")
 }
